@@ -151,8 +151,11 @@ def key_class(tag: str, orderable: bool) -> type:
     k = (tag, orderable)
     cls = _KEY_CLASSES.get(k)
     if cls is None:
-        module, _, name = tag.rpartition('.')
-        ns: dict = {'__slots__': (), '__module__': module, '__qualname__': name}
+        # tag = module + '.' + qualified name; the qualified name may itself be dotted (a class defined
+        # inside another class: `__qualname__` != `__name__`)
+        module, _, qual = tag.partition('.')
+        name = qual.rpartition('.')[2]
+        ns: dict = {'__slots__': (), '__module__': module, '__qualname__': qual}
         if orderable:
             def __lt__(self, other):
                 if CALLBACK_HOOK is not None:
@@ -163,16 +166,23 @@ def key_class(tag: str, orderable: bool) -> type:
             ns['__lt__'] = __lt__
         cls = type(name, (KeyBase,), ns)
         cls.__module__ = module
-        cls.__qualname__ = name
+        cls.__qualname__ = qual
         _KEY_CLASSES[k] = cls
         import sys
         import types
         m = sys.modules.setdefault(module, types.ModuleType(module))
-        setattr(m, name, cls)
+        holder = m
+        for part in qual.split('.')[:-1]:          # make `module.Outer.Inner` resolvable (pickle by reference)
+            if not hasattr(holder, part):
+                outer = type(part, (), {'__module__': module})
+                setattr(holder, part, outer)
+            holder = getattr(holder, part)
+        setattr(holder, name, cls)
     return cls
 
 
-for _tag, _ord in (('vk.KO', True), ('vk.KP', True), ('vk.KU', False), ('vk.KV', False)):
+for _tag, _ord in (('vk.KO', True), ('vk.KP', True), ('vk.KU', False), ('vk.KV', False), ('vk.Alpha.KZ', False),
+                   ('vk.KB', False)):
     key_class(_tag, _ord)
 
 # ---------------------------------------------------------------------------------------------
